@@ -12,8 +12,11 @@ MANIFEST = {
             "read from src/layout.rs on every run (changing it breaks the proof). 'Every entry lies inside its slot' rests on the "
             "lifting passes only creating sub-words, shifted values and packed spans that fit in 256 bits (stage lemmas of the packing "
             "passes) and is evaluated on the implementation's layouts for mask-and-shift code with shifts and mask positions anywhere "
-            "in 0..2^256, nested packed encodings and mutated real contracts; the invariant through unification/abi_type_for is not a "
-            "theorem yet (partial).",
+            "in 0..2^256, nested packed encodings and mutated real contracts. abi_type_for / the layout loop are modelled (Abi.v): "
+            "abi_packed_offsets proves that under the span discipline (each span's type no wider than the span) every reported row has "
+            "offset < 256 and known widths end <= 256, for ALL class tables; unification does not maintain that discipline "
+            "(C12_nested_refuted: known finding K-nested), so each run dumps the real final classes (tc-classes) and Coq decides "
+            "discipline / known class / violation on them (c12_class_code) and re-computes the rows with the model.",
     "note": "Trusted: Coq kernel; translator (sort key); slice::sort_by_key modelled as a stable insertion sort, not verified; harness.",
     "technique": "Coq proof (insertion-sort invariant, permutation) over a translated sort key; layout predicate evaluated inside Coq on "
                  "the implementation's output",
@@ -59,8 +62,18 @@ def check(ctx):
         out = L.analyze(ctx, hb, keys)
         terms = [L.hexify("(%s)" % l) for l in out]
         bad = vlib.run_cases(ctx, "layouts", L.HEADER, terms, per_shard=max(1, len(terms) // 32 + 1), fn="c12_code")
+        # the same programs through tc-classes: the real final classes, decided inside Coq (discipline, K-nested class, rows)
+        import p_tc_stages as TS
+        TS.FILTER = {"classes": {62, 74, 75, 76}}
+        clines = ["%s %s all sorted" % (c.hex(), TS.CFG) for c in keys]
+        couts = TS.run_lines(ctx, hb, ["tc-classes"], clines, "tc-classes:own")
+        ch = TS.evaluate(ctx, "classes", "c12_class_code", clines, couts, None, per_shard=max(1, len(clines) // 32 + 1))
+        nested = set(l.split(" ")[0] for l, k in TS.LAST_CODES.get("classes", {}).items() if k == 62)
+        ctx.coverage["class_dump_codes"] = {str(k): v for k, v in ch.items()}
         for idx, code in bad:
             c = keys[idx]
+            if code in (74, 75) and c.hex() in nested:
+                continue          # reported above as the known class, decided by Coq on the dumped classes
             ctx.violate("C12:%d:%s" % (code, c.hex()[:48]), "%s: program %s" % (CODES.get(code, code), c.hex()[:160]),
                         {"code": c.hex(), "meaning": CODES.get(code), "layout": out[idx][:600],
                          "how": "echo '<code> 30000000 10 50 250 394 0 100 -1 all' | build/harness-target/debug/slxh analyze"})
@@ -70,6 +83,9 @@ def check(ctx):
                              "input_classes": dict(collections.Counter(progs.values())),
                              "analysis_classes": {str(k): v for k, v in classes.items()},
                              "layout_entries_checked": sum(l.count(",(AT") for l in out)})
+    import p_tc_stages as TS
+    TS.suite(ctx, translate=False, parts=("abi", "classes"), codes={"abi": {22}, "classes": {62, 74, 75, 76}}, cov_key="tc_stages",
+             only=r"^(abi_packed_offsets|wd_hyp_sound|C12_nested_refuted)")
     import p_passes_packing
     p_passes_packing.suite(ctx, translate=False, codes={10, 12, 13, 14, 17}, cov_key="lifting_passes_packing", only=r"^(subword_in_slot|shifted_in_slot|packed_spans|packing3_in_slot|get_region_(sound|no_panic)|which_power_of_2_bound)")
     return vlib.finish(ctx, rule="distinct programs; non-trivial = the analysis returned a layout with at least two entries",
